@@ -270,12 +270,13 @@ class Gen:
                 call = g.call(I(f), [self.int_expr(1) for _ in range(ar)])
                 return [g.call(I("print"), [call]) if self.rng.random() < 0.5 and k != "fnv" else call]
         if r < 0.90:
+            # a try body opens no scope: what it declares is visible in the catch handler and afterwards
             x = self.fresh("e")
+            body = g.seq([self.block(2), g.if_(self.cond(1), g.throw(self.int_expr(1)))])
             self.push()
             self.declare(x, "any")
             handler = self.block(2)
             self.pop()
-            body = g.seq([self.scoped_block(2), g.if_(self.cond(1), g.throw(self.int_expr(1)))])
             return [g.try_(body, x, handler)]
         if r < 0.95 and self.loop_depth > 0:
             lv = self.rng.randint(0, self.loop_depth - 1) if self.rng.random() < 0.8 else self.loop_depth
